@@ -157,8 +157,9 @@ let () =
            let nd = ni () in
            let vg = List.init nd (fun _ ->
                let sigma = nf () in let width = nf () in let lower = nf () in let upper = nf () in let nx = ni () in
+               let expand = nb () in
                ({ v_kind = KScalar; v_periodic0 = false; v_period0 = 0.0; v_sigma = sigma; v_width0 = width;
-                  v_gperiodic = false; v_expand = false; v_hard_lo = false; v_hard_up = false },
+                  v_gperiodic = false; v_expand = expand; v_hard_lo = false; v_hard_up = false },
                 { b_lower = lower; b_upper = upper; b_nx = z_of_int nx })) in
            let weight = nf () in let hw = nf () in let freq = nz () in let gfreq = nz () in
            let ug = nb () in let keep = nb () in let wt = nb () in let bt = nf () in let kb = nf () in
